@@ -148,6 +148,30 @@ def f64_gates(text, ob, cb):
     return text[:ob] + new + text[cb + 1:], cb + len(new) - len(body)
 
 
+FOR_RANGE_RE = re.compile(r'\bfor\s+([A-Za-z_][A-Za-z0-9_]*)\s+in\s+([A-Za-z0-9_]+|\([^(){};]*\))\s*\.\.\s*([A-Za-z0-9_]+|\([^(){};]*\))\s*\{')
+
+
+def for_range_while(text, ob, cb):
+    """`for P in A..B { BODY }` -> `{ let mut __k: usize = A; let __n: usize = B; while __k < __n { let P = __k; __k += 1; BODY } }`
+    (a half-open usize range evaluates its bounds once and yields A, A+1, .., B-1; `__k += 1` cannot overflow below `__n`).
+    Verus supports `continue` in `while` loops but not in `for` loops."""
+    while True:
+        src = Src(text)
+        hit = None
+        for mt in FOR_RANGE_RE.finditer(text, ob, cb):
+            if src.mask[mt.start()]:
+                hit = mt
+                break
+        if not hit:
+            return text, cb
+        lob = hit.end() - 1
+        lcb = src.match_close(lob)
+        head = '{ let mut __k: usize = %s; let __n: usize = %s; while __k < __n { let %s = __k; __k += 1;' % (hit.group(2), hit.group(3), hit.group(1))
+        new = text[:hit.start()] + head + text[lob + 1:lcb + 1] + ' }' + text[lcb + 1:]
+        cb += len(new) - len(text)
+        text = new
+
+
 def pre_rewrite(text, unit):
     """source-level desugarings applied to the bodies of the functions that ask for them (spec key `pre_rewrites`), before annotation"""
     for key, spec in unit.get('fns', {}).items():
@@ -166,6 +190,8 @@ def pre_rewrite(text, unit):
         unit.setdefault('_orig_body_sha', {})[key] = sha(text[ob_:cb_ + 1])  # the body as it is in /repo, before desugaring
         if 'for_each_loops' in spec['pre_rewrites']:
             text, cb_ = for_each_loops(text, ob_, cb_)
+        if 'for_range_while' in spec['pre_rewrites']:
+            text, cb_ = for_range_while(text, ob_, cb_)
         if 'f64_gates' in spec['pre_rewrites']:
             text, cb_ = f64_gates(text, ob_, cb_)
     return text
@@ -189,6 +215,9 @@ def annotate_file(text, unit, canary=False, disabled_rewrites=()):
             raise AnchorLost('%s: item `%s` found %d times' % (unit['file'], header, len(items)))
         s, hp, ob, cb = items[0]
         wrap_regions.append((s, cb + 1))
+        # attributes for a wrapped item, e.g. `#[verifier::external_derive]` (derived impls Verus cannot ingest stay external)
+        if header in unit.get('wrap_attrs', {}):
+            add_edit(s, s, unit['wrap_attrs'][header] + '\n', prio=5)
 
     # ---- contracted functions grouped by container
     by_container = {}
